@@ -478,6 +478,23 @@ def run(ctx, res):
     r3_max_prio(F, res)
     from . import c05_meta
     c05_meta.run(F, res)
+    # R5: the two settings the resolution reads are what the caller set: their setters store their own field and nothing
+    # else (a setter of one that also switches the other on resolves conflicts the caller asked to have reported; seed C05-10).
+    # Decided by the setter tables of C17-R5b, shared.
+    from . import c17, report
+    rid5 = res.rule("C05-R5", "Settings::prefer_shifts and ::prefer_shifts_over_empty store their own field only (shares C17-R5b)", floor=2)
+    sub5 = report.Result("C05", ctx.tier)
+    try:
+        c17.r5_cli(F, sub5)
+        for inst in sub5.instances:
+            if inst["ok"] and inst["rule"] == "C17-R5b" and str(inst["instance"]) in (
+                    "setter/prefer_shifts/side", "setter/prefer_shifts_over_empty/side", "setter/prefer_shifts/own", "setter/prefer_shifts_over_empty/own"):
+                res.ok(rid5, inst["instance"], inst.get("where"), inst.get("detail"))
+        for v in sub5.violations:
+            if v["rule"] == "C17-R5b" and ("/setter/prefer_shifts/" in v["key"] or "/setter/prefer_shifts_over_empty/" in v["key"]):
+                res.violation(rid5, v["key"].split("/", 1)[1], v["what"], v.get("where"))
+    except mir.AnchorLost as e:
+        res.undecided(rid5, str(e))
     res.extra["exhaustive"] = True
     res.explanation = (
         "The complete decision tables of conflict resolution are extracted from the MIR of "
